@@ -157,3 +157,18 @@ claim("C11", "other",
       "exact == only demanded for integer-exponent (same-base) combined prefixes.",
       "symbolic execution on shadow instances (keys) and on proxies (values) + z3", "DESIGN.md 4/C11",
       "internmodel")
+
+claim("C19", "other",
+      "(1) Unit.define/alias/derive, Dimension.unit/scale run as REAL code against registry models whose "
+      "membership answers (absent / bound to this object / bound to another) are solver-chosen Booleans, so "
+      "every registry pre-state is enumerated; a raising call must leave every write log (registries, _known, "
+      "_base, _ratios/_offsets, names/symbols) empty and a returning call must bind and report every declared "
+      "name and symbol without overwriting another object's. (2) Per class the naming life-cycle automaton, "
+      "with transitions obtained by running the real constructors, is model-checked by z3 for operation "
+      "orders of length <= 4 that leave a first-declared name unbound. (3) Every (name, symbol) literal in the "
+      "shipped modules (AST) must resolve, under several import orders (finite audit).",
+      "Strings are concrete (with/without a space); registry invariant 'no symbol with a space is registered' "
+      "assumed for pre-states; re-declaring a second name through a constructor is outside; part (3) is an "
+      "audit, not a solver claim.",
+      "symbolic registry pre-states over real definition code + bounded model checking of an extracted automaton",
+      "DESIGN.md 4/C19", "internmodel")
